@@ -298,7 +298,7 @@ func c20W1(sum *c20Summary, rng *rand.Rand, g, rounds int, viol func(string, str
 			panic(err)
 		}
 		// a FRESH credential per round: the first NonrevPrepareCache happens concurrently with everything else
-		cred, err := key.SignCredRev([]*big.Int{randBig(rng, 250), bi(7), bi(int64(30 + rng.IntN(50))), randBig(rng, 100)}, rev)
+		cred, err := key.SignCredRev([]*big.Int{randBig(rng, 250), randBig(rng, 700), bi(int64(30 + rng.IntN(50))), randBig(rng, 100)}, rev)
 		if err != nil {
 			panic(err)
 		}
@@ -406,9 +406,9 @@ func c20W2(sum *c20Summary, rng *rand.Rand, g, rounds int, viol func(string, str
 	for i := range creds {
 		var err error
 		if i%2 == 0 {
-			creds[i], err = key.SignCredRev([]*big.Int{randBig(rng, 250), bi(7), bi(44)}, rev)
+			creds[i], err = key.SignCredRev([]*big.Int{randBig(rng, 250), randBig(rng, 700), bi(44)}, rev)
 		} else {
-			creds[i], err = key.SignCred([]*big.Int{randBig(rng, 250), bi(7), bi(44)})
+			creds[i], err = key.SignCred([]*big.Int{randBig(rng, 250), randBig(rng, 700), bi(44)})
 		}
 		if err != nil {
 			panic(err)
